@@ -140,3 +140,7 @@ Qed.
 
 Lemma gen_e_text_ok : e_text_ok gen_e_text.
 Proof. exists gen_e_head, gen_e_tail. split; [reflexivity|]. split; vm_compute; reflexivity. Qed.
+
+(* ---- what the engine is run with *)
+Lemma gen_run_context_ok : run_context_ok gen_run_context = true.
+Proof. vm_compute. reflexivity. Qed.
